@@ -77,9 +77,35 @@ type TransactionCommittingIter struct {
 	implicitCommit bool
 }
 
-func (t *TransactionCommittingIter) Next(ctx *sql.Context) (sql.Row, error) {
-	return t.childIter.Next(ctx)
+// good: the decision fields are stored by the constructor and by copy-and-modify
+func NewTransactionCommittingIter(child sql.RowIter, autoCommit, implicitCommit bool) *TransactionCommittingIter {
+	return &TransactionCommittingIter{childIter: child, autoCommit: autoCommit, implicitCommit: implicitCommit}
 }
+
+func (t *TransactionCommittingIter) WithChildIter(child sql.RowIter) *TransactionCommittingIter {
+	nt := *t
+	nt.childIter = child
+	return &nt
+}
+
+func wrapNoAutoCommit(child sql.RowIter) *TransactionCommittingIter {
+	it := NewTransactionCommittingIter(child, true, false)
+	it.autoCommit = false // still under construction: the object is the constructor's fresh result
+	return it
+}
+
+// BUG (P2w): a failed statement turns autocommit off, Close then neither commits nor clears
+func (t *TransactionCommittingIter) Next(ctx *sql.Context) (sql.Row, error) {
+	row, err := t.childIter.Next(ctx)
+	if err != nil {
+		t.autoCommit = false
+	}
+	return row, err
+}
+
+// BUG (P2w): an existing iterator is overwritten as a whole; the address of a decision field escapes
+func (t *TransactionCommittingIter) Reset(o *TransactionCommittingIter) { *t = *o }
+func (t *TransactionCommittingIter) implicitFlag() *bool                { return &t.implicitCommit }
 
 func (t *TransactionCommittingIter) Close(ctx *sql.Context) error {
 	err := t.childIter.Close(ctx)
